@@ -287,29 +287,22 @@ impl CommandAnalyzer {
         }
     }
 
-    /// The items declared among the statements of a function body, or of the methods of an impl
-    /// block (`#[derive(Serialize)] struct Progress { .. }` inside the command that emits it)
+    /// The items declared among the statements of a function body or of the methods of an impl
+    /// block, at any depth (`#[derive(Serialize)] struct Progress { .. }` inside the command that
+    /// emits it, or inside the closure it hands to a spawned task)
     fn items_declared_in_bodies(item: &syn::Item) -> Vec<syn::Item> {
-        let blocks: Vec<&syn::Block> = match item {
-            syn::Item::Fn(item_fn) => vec![&*item_fn.block],
-            syn::Item::Impl(item_impl) => item_impl
-                .items
-                .iter()
-                .filter_map(|impl_item| match impl_item {
-                    syn::ImplItem::Fn(method) => Some(&method.block),
-                    _ => None,
-                })
-                .collect(),
-            _ => Vec::new(),
-        };
-        blocks
-            .into_iter()
-            .flat_map(|block| &block.stmts)
-            .filter_map(|stmt| match stmt {
-                syn::Stmt::Item(inner) => Some(inner.clone()),
-                _ => None,
-            })
-            .collect()
+        struct DeclaredItems(Vec<syn::Item>);
+        impl<'ast> syn::visit::Visit<'ast> for DeclaredItems {
+            fn visit_stmt(&mut self, stmt: &'ast syn::Stmt) {
+                if let syn::Stmt::Item(inner) = stmt {
+                    self.0.push(inner.clone());
+                }
+                syn::visit::visit_stmt(self, stmt);
+            }
+        }
+        let mut declared = DeclaredItems(Vec::new());
+        syn::visit::Visit::visit_item(&mut declared, item);
+        declared.0
     }
 
     /// Lazily resolve types using the dependency graph
